@@ -2,17 +2,21 @@
 
 pub mod common;
 pub mod cssgen;
+pub mod tables;
 
 pub mod c01;
 pub mod c02;
 pub mod c03;
 pub mod c04;
+pub mod c05;
 pub mod c07;
 pub mod c08;
+pub mod c09;
 pub mod c10;
 pub mod c11;
 pub mod c12;
 pub mod c13;
+pub mod c14;
 pub mod c15;
 pub mod c16;
 
@@ -24,12 +28,16 @@ pub fn all() -> Vec<&'static Monitor> {
         &c02::MONITOR,
         &c03::MONITOR,
         &c04::MONITOR,
+        &c05::MONITOR_C05,
+        &c05::MONITOR_C06,
         &c07::MONITOR,
         &c08::MONITOR,
+        &c09::MONITOR,
         &c10::MONITOR,
         &c11::MONITOR,
         &c12::MONITOR,
         &c13::MONITOR,
+        &c14::MONITOR,
         &c15::MONITOR,
         &c16::MONITOR,
     ]
